@@ -277,6 +277,7 @@ func (e *Engine) unknownCall(s *State, name string, sig *types.Signature, recv V
 	}
 	// an assumed contract on the interface method (or external function) constrains the otherwise free results
 	if c := e.ifaceContracts[name]; c != nil && s.spec == 0 {
+		site := e.site(e.curInstr)
 		bind := func(spec *ssa.Function) []Val {
 			var pa []Val
 			for _, pp := range spec.Params {
@@ -310,6 +311,13 @@ func (e *Engine) unknownCall(s *State, name string, sig *types.Signature, recv V
 				}
 			}
 			return pa
+		}
+		if c.D.Pre != "" { // what the dependency requires of its caller (read off its source): the caller owes it
+			pre := c.spec(c.D.Pre)
+			results = nil
+			v := e.evalPure(s, pre, bind(pre), nil).(Term)
+			results = ev.Results
+			e.oblig(s, "call.pre["+shortName(name)+"]"+site, v)
 		}
 		for _, pn := range c.D.Posts {
 			post := c.spec(pn)
